@@ -332,7 +332,32 @@ func c12Records(r *kernel.Run) {
 		r.Count("fault.misdirected_sealed_field", 1)
 		_, err = types.LoadNodeCredentials(w.Ctx, w.Storage, nodeenrollment.CurrentId, o1...)
 		fail("after transplanting sealed "+f+" from another record", err)
-		r.FP(kname, opt, f, backend)
+		// the same between two nodes: another node's "current" record (same ID, same wrapper) in its own storage
+		w2 := NewWorld(r, "other-node", Pick2(tp, "inmem", "file"), false, false)
+		c2 := mk("current")
+		if err := c2.Store(w2.Ctx, w2.Storage, o1...); err != nil {
+			r.Violate("roundtrip", "store-failed/"+kname, "%v", err)
+		}
+		if err := proto.Clone(orig).(*types.NodeCredentials).Store(w.Ctx, w.Storage, o1...); err != nil {
+			r.Violate("roundtrip", "store-failed/"+kname, "%v", err)
+		}
+		ra2, rb2 := &types.NodeCredentials{Id: "current"}, &types.NodeCredentials{Id: "current"}
+		w.Inner.Load(w.Ctx, ra2)
+		w2.Inner.Load(w2.Ctx, rb2)
+		f2 := fields[tp.Draw(len(fields))]
+		switch f2 {
+		case "certificate_private_key_pkcs8":
+			ra2.CertificatePrivateKeyPkcs8 = rb2.CertificatePrivateKeyPkcs8
+		case "encryption_private_key_bytes":
+			ra2.EncryptionPrivateKeyBytes = rb2.EncryptionPrivateKeyBytes
+		case "registration_nonce":
+			ra2.RegistrationNonce = rb2.RegistrationNonce
+		}
+		w.Inner.Store(w.Ctx, ra2)
+		r.Count("fault.misdirected_sealed_field", 1)
+		_, err = types.LoadNodeCredentials(w.Ctx, w.Storage, nodeenrollment.CurrentId, o1...)
+		fail("after transplanting sealed "+f2+" from another node's record with the same ID", err)
+		r.FP(kname, opt, f, f2, backend)
 	case 1:
 		mk := func(name string) *types.NodeInformation {
 			id := NewIdent(name)
